@@ -112,6 +112,12 @@ var (
 	c04ExpiryOffsets = map[string]time.Duration{"expired-1s": time.Second, "expired-1m": time.Minute, "expired-1h": time.Hour}
 )
 
+// c04StatusValues: mapping-state names -> stored Status value; only "active" may admit
+var c04StatusValues = map[string]string{
+	"status-error": string(models.MappingStatusError), "status-empty": "", "status-disabled": "disabled",
+	"status-paused": "paused", "status-Active-capitalised": "Active",
+}
+
 const (
 	c04Rereads      = 50 // bound of every re-read barrier: a count of reads, never a duration
 	c04MaxSetupFail = 12 // a run that cannot establish this many cells stops (inconclusive) instead of crawling
@@ -571,6 +577,15 @@ func (w *c04World) setMapState() error {
 	case "missing":
 		return w.n.CC.DeletePortMapping(w.mapID)
 	}
+	if st, ok := c04StatusValues[w.cell.MapState]; ok {
+		// any status other than "active", written the way the management API's update does
+		m, err := w.n.CC.GetPortMapping(w.mapID)
+		if err != nil {
+			return err
+		}
+		m.Status = models.MappingStatus(st)
+		return w.n.CC.UpdatePortMapping(m)
+	}
 	return fmt.Errorf("unknown map state %q", w.cell.MapState)
 }
 
@@ -616,6 +631,10 @@ func (w *c04World) checkMapState() error {
 		}
 		if m.Status != models.MappingStatusActive || m.IsRevoked {
 			return fmt.Errorf("expired cell: stored status/revoked flag changed")
+		}
+	case "status-error", "status-empty", "status-disabled", "status-paused", "status-Active-capitalised":
+		if string(m.Status) != c04StatusValues[w.cell.MapState] || m.IsRevoked {
+			return fmt.Errorf("stored status %q is not %q", m.Status, c04StatusValues[w.cell.MapState])
 		}
 	case "inactive":
 		if m.Status != models.MappingStatusInactive || m.IsRevoked || (m.ExpiresAt != nil && !m.ExpiresAt.After(time.Now())) {
@@ -1256,6 +1275,7 @@ func c04RunInflight(t *testing.T, run *vk.Run, c c04Inflight, idx int) {
 	mem := memory.New(bg)
 	gate := vk.NewGated("node-a", mem)
 	gate.SetHook(nil)
+	gate.KeepLog(true)
 	w.n = newMiniNode(t, miniOpts{NodeID: "node-a", Store: gate, NoCommands: true})
 	w.nb = w.n
 	admin := newMiniNode(t, miniOpts{NodeID: "node-b", Store: mem, NoCommands: true})
@@ -1293,7 +1313,8 @@ func c04RunInflight(t *testing.T, run *vk.Run, c c04Inflight, idx int) {
 	defer release()
 	suffix := ":" + w.mapID
 	gate.SetHook(func(tier, op, key string) error {
-		if armed.Load() && op == "Get" && strings.HasSuffix(key, suffix) {
+		// only reads made by the held open's own goroutine count (the hook runs on the caller's stack)
+		if armed.Load() && op == "Get" && strings.HasSuffix(key, suffix) && c04OnStack("c04HeldOpen") {
 			if int(reads.Add(1)) == c.GateAt {
 				close(reached)
 				<-hold
@@ -1301,12 +1322,10 @@ func c04RunInflight(t *testing.T, run *vk.Run, c c04Inflight, idx int) {
 		}
 		return nil
 	})
+	c04Quiesce(gate, func() { _, _ = w.n.CC.GetPortMapping(w.mapID) })
 	armed.Store(true)
 	done := make(chan struct{})
-	go func() {
-		defer close(done)
-		w.open(rq, &packet.TunnelOpenRequest{MappingID: w.mapID, TunnelID: w.tunnel})
-	}()
+	go c04HeldOpen(w, rq, &packet.TunnelOpenRequest{MappingID: w.mapID, TunnelID: w.tunnel}, done)
 	gated := false
 	select {
 	case <-reached:
@@ -1372,6 +1391,13 @@ func c04RunInflight(t *testing.T, run *vk.Run, c c04Inflight, idx int) {
 		att = c04Side(b, fresh) + "@" + b.GetTunnelID()
 	}
 	detail := map[string]any{"case": c, "stored_after": stored, "fresh_ack": c04AckStr(fresh.ack), "fresh_attached_as": att, "trace": w.trace}
+	var opsOnKey []string
+	for _, o := range gate.Log() {
+		if strings.HasSuffix(o.Key, suffix) {
+			opsOnKey = append(opsOnKey, o.Op)
+		}
+	}
+	detail["node_a_store_ops_on_mapping_record"] = opsOnKey
 	switch {
 	case c04Ok(fresh) || att != "":
 		run.Violation("C04:admitted|tunnel=revoke-in-flight|why=mapping-not-valid", detail)
@@ -1392,6 +1418,45 @@ func c04RunInflight(t *testing.T, run *vk.Run, c c04Inflight, idx int) {
 // authenticated unrelated client, an unauthenticated connection, one that only did
 // phase 1. Each request is judged by its own identity cell of the matrix, whatever was
 // in flight next to it.
+
+// c04Quiesce waits until nothing but the harness touches node-a's store (asynchronous
+// config pushes / notifications after set-up have finished): a held open must perform its
+// own reads, not share an in-flight read of a background reader. Bounded by a poll count.
+func c04Quiesce(g *vk.Gated, read func()) {
+	quiet := 0
+	for p := 0; p < 400 && quiet < 5; p++ {
+		before := g.Ops()
+		time.Sleep(300 * time.Microsecond)
+		if g.Ops() == before {
+			quiet++
+		} else {
+			quiet = 0
+		}
+	}
+	read() // joins (and thereby outlives) any read still in flight
+}
+
+// c04HeldOpen is the goroutine body of an open that a gate is meant to hold (named, so the
+// storage hook can tell that a read is made on this goroutine's stack).
+func c04HeldOpen(w *c04World, e *c04End, req *packet.TunnelOpenRequest, done chan struct{}) {
+	defer close(done)
+	w.open(e, req)
+}
+
+// c04OnStack reports whether the calling goroutine's stack contains fn.
+func c04OnStack(fn string) bool {
+	pcs := make([]uintptr, 256)
+	frames := runtime.CallersFrames(pcs[:runtime.Callers(1, pcs)])
+	for {
+		f, more := frames.Next()
+		if strings.Contains(f.Function, fn) {
+			return true
+		}
+		if !more {
+			return false
+		}
+	}
+}
 
 // c04ConcOtherOpen is the body of every concurrent requester goroutine (a named function
 // so that its goroutine can be recognised in a stack dump).
@@ -1488,7 +1553,7 @@ func c04RunConcurrent(t *testing.T, run *vk.Run, c c04Conc, idx int) {
 		return &packet.TunnelOpenRequest{MappingID: w.mapID, TunnelID: w.tunnel, SecretKey: w.secret}
 	}
 
-	var armed atomic.Bool
+	var armed, heldOnce atomic.Bool
 	var reads atomic.Int32
 	reached, hold := make(chan struct{}), make(chan struct{})
 	var releaseOnce sync.Once
@@ -1497,19 +1562,22 @@ func c04RunConcurrent(t *testing.T, run *vk.Run, c c04Conc, idx int) {
 	suffix := ":" + w.mapID
 	gate.SetHook(func(tier, op, key string) error {
 		if armed.Load() && op == "Get" && strings.HasSuffix(key, suffix) {
-			if reads.Add(1) == 1 {
+			if !c04OnStack("c04HeldOpen") {
+				reads.Add(1) // another requester reached the store itself
+				return nil
+			}
+			if heldOnce.CompareAndSwap(false, true) {
+				reads.Add(1)
 				close(reached)
 				<-hold
 			}
 		}
 		return nil
 	})
+	c04Quiesce(gate, func() { _, _ = w.n.CC.GetPortMapping(w.mapID) })
 	armed.Store(true)
 	entDone := make(chan struct{})
-	go func() {
-		defer close(entDone)
-		w.open(ent, req())
-	}()
+	go c04HeldOpen(w, ent, req(), entDone)
 	select {
 	case <-reached:
 		run.Count("entitled_open_held_in_validation", 1)
@@ -2176,6 +2244,171 @@ func TestVerifC04History(t *testing.T) {
 	run.Floor("history_final_state|active", 4)
 	run.Floor("entitled_admitted|tunnel=after-history", 4)
 	run.Floor("refused_with_failure_ack", 20)
+}
+
+// TestVerifC04StatusValues: a mapping whose Status is anything but "active" (error, empty,
+// free-form values the management API stores unvalidated) is not an active mapping.
+func TestVerifC04StatusValues(t *testing.T) {
+	run := vk.Start(t, "C04", "status")
+	defer run.Finish()
+	run.Rule("product mapping-kind{keyed,conncode} x tunnel-state{none,waiting} x stored status{error, empty, 'disabled', 'paused', 'Active'} x identity{listen,target,other} x credential{id,id+secret}, status written through CloudControl.UpdatePortMapping; every cell is a distinct case")
+	var cells []c04Cell
+	for _, k := range []string{"keyed", "conncode"} {
+		for _, tu := range []string{"none", "waiting"} {
+			for _, ms := range []string{"status-error", "status-empty", "status-disabled", "status-paused", "status-Active-capitalised"} {
+				for _, id := range []string{"listen", "target", "other"} {
+					for _, cr := range []string{"id", "id+secret"} {
+						if k == "conncode" && cr == "id+secret" {
+							continue
+						}
+						cells = append(cells, c04Cell{Kind: k, Tunnel: tu, MapState: ms, Identity: id, Cred: cr})
+					}
+				}
+			}
+		}
+	}
+	c04RunMatrix(t, run, cells)
+	run.Exhaustive(true)
+	run.Floor("cells_executed", int64(len(cells)))
+	run.Floor("cells_not_entitled", int64(len(cells)-20))
+}
+
+// TestVerifC04LateBridge: a client entitled only to its own mapping A opens the victim's
+// predictable tunnel id T while NO bridge exists (so the dispatcher's up-front checks have
+// nothing to compare with); its open is held (gated store) at its first read of mapping A
+// after its acknowledgement was written, the victim's listen client creates bridge T of
+// mapping B meanwhile, then the open continues. It must never end up attached to T(B).
+// As in the colliding-id family the success ack alone is not decisive (it was for mapping
+// A's own, not yet existing, tunnel): the verdict is attachment to the victim's tunnel.
+func TestVerifC04LateBridge(t *testing.T) {
+	run := vk.Start(t, "C04", "latebridge")
+	defer run.Finish()
+	run.Rule("requester{target client of A with A's id+secret, listen client of A with A's id, with A's id+secret} x repetitions; the requester's open is held at its first read of mapping A's record after its ack was written; the victim's source open for the same tunnel id (mapping B) runs inside the hold; distinct = requester x repetition")
+	type lb struct{ identity, cred string }
+	cases := []lb{{"targetA", "id+secret"}, {"listenA", "id"}, {"listenA", "id+secret"}}
+	n := 0
+	for r := 0; r < run.Pick(3, 20); r++ {
+		for _, c := range cases {
+			run.Case(fmt.Sprintf("latebridge|%s|%s|%d", c.identity, c.cred, r), nil)
+			c04RunLateBridge(t, run, c.identity, c.cred, 700000+n)
+			n++
+		}
+	}
+	run.Floor("cells_executed", int64(n-1))
+	run.Floor("open_held_after_its_ack", int64(n-1))
+	run.Floor("victim_bridge_created_inside_hold", int64(n-1))
+}
+
+func c04RunLateBridge(t *testing.T, run *vk.Run, identity, cred string, idx int) {
+	cell := c04Cell{Kind: "keyed", Tunnel: "none", MapState: "active", Identity: identity, Cred: cred, Foreign: "disjoint"}
+	w := &c04World{t: t, run: run, cell: cell}
+	defer w.close()
+	bg, cancel := context.WithCancel(context.Background())
+	w.cleanup = append(w.cleanup, cancel)
+	gate := vk.NewGated("node-a", memory.New(bg))
+	gate.SetHook(nil)
+	w.n = newMiniNode(t, miniOpts{NodeID: "node-a", Store: gate, NoCommands: true})
+	w.nb = w.n
+	if err := w.populate(idx); err != nil {
+		run.Count("cells_setup_failed", 1)
+		return
+	}
+	c := w.TA
+	if identity == "listenA" {
+		c = w.LA
+	}
+	rq, err := w.newEnd(w.n, "requester", c.ClientID, c.Secret)
+	if err != nil {
+		run.Count("cells_setup_failed", 1)
+		return
+	}
+	w.rq = rq
+	if err := w.victimListenPrepare(); err != nil {
+		run.Count("cells_setup_failed", 1)
+		return
+	}
+	var armed atomic.Bool
+	reached, hold := make(chan struct{}), make(chan struct{})
+	var once, relOnce sync.Once
+	release := func() { relOnce.Do(func() { close(hold) }) }
+	defer release()
+	keyA := c04MappingKey(w.mapAID)
+	gate.SetHook(func(tier, op, key string) error {
+		if armed.Load() && op == "Get" && key == keyA && rq.c.hc.Pending() > 0 {
+			held := false
+			once.Do(func() { held = true })
+			if held {
+				close(reached)
+				<-hold
+			}
+		}
+		return nil
+	})
+	c04Quiesce(gate, func() { _, _ = w.n.CC.GetPortMapping(w.mapID) })
+	armed.Store(true)
+	req := &packet.TunnelOpenRequest{MappingID: w.mapAID, TunnelID: w.tunnel}
+	if cred == "id+secret" {
+		req.SecretKey = w.secretA
+	}
+	done := make(chan struct{})
+	go func() { defer close(done); w.open(rq, req) }()
+	select {
+	case <-reached:
+		run.Count("open_held_after_its_ack", 1)
+		w.victimListenSend() // the victim's source creates bridge T of mapping B inside the hold
+		if c04Ok(w.vL) && c04BridgeOf(w.n, w.vL) != nil {
+			run.Count("victim_bridge_created_inside_hold", 1)
+		}
+	case <-done:
+		run.Count("gate_not_reached", 1)
+	case <-time.After(10 * time.Second):
+		run.Count("watchdog_latebridge", 1)
+		return
+	}
+	release()
+	select {
+	case <-done:
+	case <-time.After(10 * time.Second):
+		run.Count("watchdog_latebridge", 1)
+		return
+	}
+	armed.Store(false)
+	gate.SetHook(nil)
+	w.logf("requester open %+v: first ack=%s err=%q", *req, c04AckStr(rq.ack), rq.err)
+	obs := c04Obs{Ack: c04AckStr(rq.ack), SendErr: rq.err}
+	heldByVictimMapping := false
+	if b := c04BridgeOf(w.n, rq); b != nil {
+		obs.Attached = c04Side(b, rq) + "@" + b.GetTunnelID() + "/mapping=" + b.GetMappingID()
+		heldByVictimMapping = b.GetMappingID() == w.mapID
+	}
+	if c04Ok(w.vL) {
+		w.write(w.vL)
+		w.write(rq)
+		b := c04BridgeOf(w.n, w.vL)
+		w.locateAmong(w.vL.mark, b != nil && b.GetTargetConnectionID() != "", nil)
+		for _, e := range []*c04End{rq, w.vL} {
+			e.drain()
+		}
+		if rq.has(w.vL.mark) {
+			obs.Leaked = append(obs.Leaked, "victimL")
+		}
+		if w.vL.has(rq.mark) {
+			obs.Injected = append(obs.Injected, "victimL")
+		}
+	}
+	obs.Trace = w.trace
+	run.Eval(1)
+	run.Count("cells_executed", 1)
+	run.Distinct(fmt.Sprintf("%s|%s|%d", identity, cred, idx))
+	detail := map[string]any{"requester": identity, "cred": cred, "observed": obs}
+	if len(obs.Leaked) > 0 || len(obs.Injected) > 0 || heldByVictimMapping {
+		run.Violation("C04:admitted|tunnel=bridge-created-during-open|why=tunnel-of-another-mapping", detail)
+	} else {
+		run.Count("not_attached_to_victim_tunnel", 1)
+	}
+	if idx%4 == 0 {
+		run.Sample(detail)
+	}
 }
 
 // TestVerifC04ForeignTunnel: the requester holds a credential that is valid — for another
